@@ -197,7 +197,24 @@ pub fn oracle(case: &Case, st: &mut Stats) -> Verdict {
             let id = ident(&e);
             let sc = SingleZoneCatalog::new(e);
             ensure!(ident(sc.entry()) == id, "single-entry", "SingleZoneCatalog::entry differs");
-            for n in &case.names {
+            // besides the pool: names whose wire form ends with the entry's wire form although they are not at or below it
+            let mut probes: Vec<MName> = case.names.clone();
+            if let Some(m) = crate::gen::merged_confusable(first) {
+                probes.push(m.child(b"www"));
+                probes.push(m);
+                st.class("single-zone-lookup-of-wire-confusable-names");
+            }
+            if let Some(l0) = first.labels.first() {
+                let mut labels = first.labels.clone();
+                let mut f = vec![b'x', l0.len() as u8];
+                f.extend_from_slice(l0);
+                labels[0] = f;
+                let n = MName { labels };
+                if n.is_valid() {
+                    probes.push(n);
+                }
+            }
+            for n in &probes {
                 for c in CLASSES {
                     st.eval();
                     let q = qn(n);
